@@ -362,7 +362,8 @@ Definition merge_cells (cs : cells_t) (hit : nat) (x0m y0m x0M y0M x1m y1m x1M y
                   (if shrinkBottom then del else add) in
   cs.
 
-Definition merge_quads (g : grid) (hit : nat) (nq : quad) : grid :=
+(* the re-registration of the moved plane, in a grid that contains both footprints *)
+Definition merge_quads_cells (g : grid) (hit : nat) (nq : quad) : grid :=
   match nth_error (g_planes g) hit with
   | None => g
   | Some eq =>
@@ -370,6 +371,18 @@ Definition merge_quads (g : grid) (hit : nat) (nq : quad) : grid :=
       let eq' := blend_quad eq nq in
       let '(x1m, y1m, x1M, y1M) := footprint g eq' in
       set_plane g hit eq' (merge_cells (g_cells g) hit x0m y0m x0M y0M x1m y1m x1M y1M) (g_mergecount g + 1)
+  end.
+
+(* mergeQuads, as repaired (finding F14): the blended plane is computed first and the grid is fitted to its
+   footprint before any cell coordinate is taken.  In exact arithmetic the two ExpandToFitPoint calls are
+   no-ops (the blend is a convex combination of two footprints inside the grid: proofs/GridProofs.v
+   merge_quads_fit_noop); in float32 they are what keeps a footprint that rounding pushed over the border inside. *)
+Definition merge_quads (g : grid) (hit : nat) (nq : quad) : grid :=
+  match nth_error (g_planes g) hit with
+  | None => g
+  | Some eq =>
+      let eq' := blend_quad eq nq in
+      merge_quads_cells (expand (expand g (qmin eq')) (qmax eq')) hit nq
   end.
 
 (* ------------------------------------------------------------------ InsertQuad *)
